@@ -71,6 +71,25 @@ def run_job(job):
                 dup = [(a["n"], b["n"]) for i, a in enumerate(records) for b in records[i + 1:] if a["export"] == b["export"]]
                 V("two distinct registrations returned the same export key", "registrations %s (user/password/server: %s)" % (
                     dup, [(r["user"], proto.short(r["pw"]), r["srv"]) for r in records if r["n"] in dup[0]]))
+            # registrations attempted while the caller's RNG is failing: on a correct library they do not complete (the RNG's
+            # own panic surfaces); if they DO complete they are registrations like any other and their export keys must
+            # be distinct too
+            for k in range(2):
+                s.rng("dying", proto.H("c16-dying", su, wi, k))
+                a = s.cmd("creg_start", rng="dying", pw=users[0][1], out_state="dy.cs", out_msg="dy.rq")
+                b = s.cmd("sreg_start", setup="S1", req="dy.rq", cred=b"alice", out="dy.rr")
+                s.cmd("rng_fail", id="dying", at=1)
+                c = s.cmd("creg_finish", rng="dying", state="dy.cs", pw=users[0][1], resp="dy.rr", out="dy.up")
+                evals += 3
+                stats["failing_rng_registrations"] = stats.get("failing_rng_registrations", 0) + 1
+                if c.ok:
+                    nreg += 1
+                    records.append({"h": None, "user": "alice", "pw": users[0][1], "srv": "S1", "ids": (None, None), "export": c.export_key, "n": nreg, "dead_rng": True})
+            ek = [r["export"] for r in records]
+            if len(set(ek)) != len(ek):
+                dup = [(a_["n"], b_["n"]) for i, a_ in enumerate(records) for b_ in records[i + 1:] if a_["export"] == b_["export"]]
+                V("two distinct registrations returned the same export key (registrations completed while the RNG was failing)", "registrations %s" % dup)
+            records = [r for r in records if not r.get("dead_rng")]
             # separation under IDENTICAL client randomness: with the same blind and the same envelope nonce, the export key
             # must still differ as soon as the password, the user (credential id) or the server differs
             base_users = [("alice", b"same password for everybody"), ("alicf", b"same password for everybody"), ("alice", b"same password for everybodz"),
